@@ -246,3 +246,18 @@ def run(ctx):
             want = 'validate_%s_packet_outbound%s' % (var.lower(), '_internal' if nm.endswith('internal') else '')
             ctx.ob(css[0].nfn.endswith('::' + want), '%s: %s -> %s' % (nm, var, short(css[0].fn)), 'vdispatch|%s|%s' % (nm, var))
         ctx.ob({'Publish', 'Subscribe', 'Unsubscribe', 'Disconnect'} <= set(d), '%s covers all user-submittable kinds' % nm, 'vdispatch|%s|coverage' % nm)
+    # ---- added after seed C16-3b: each enforced limit is the value the server announced for *that* limit
+    bn_ = ctx.fn('protocol::build_negotiated_settings')
+    lit_ = [e for (i, j, s_) in bn_.stmts() if s_['k'] == 'assign' for e in [bn_.rvalue_expr(s_['rv'], i)] if e[0] == 'agg' and e[1].endswith('NegotiatedSettings')]
+    lit_ = list({show(e): e for e in lit_}.values())
+    ctx.ob(len(lit_) == 1, 'one NegotiatedSettings literal', 'limit-source|literal', loc=bn_.loc(), rule='R-C16-1')
+    if len(lit_) == 1:
+        d_ = dict(lit_[0][3])
+        SRC = {'maximum_qos': 'maximum_qos', 'retain_available': 'retain_available', 'wildcard_subscriptions_available': 'wildcard_subscriptions_available',
+               'shared_subscriptions_available': 'shared_subscriptions_available', 'subscription_identifiers_available': 'subscription_identifiers_available',
+               'maximum_packet_size_to_server': 'maximum_packet_size', 'receive_maximum_from_server': 'receive_maximum', 'topic_alias_maximum_to_server': 'topic_alias_maximum'}
+        for f_, src_ in sorted(SRC.items()):
+            val = show(d_.get(f_)) if d_.get(f_) is not None else None
+            others = [x for x in SRC.values() if x != src_ and val is not None and re.search(r'packet\.%s\b' % re.escape(x), val)]
+            ctx.ob(val is not None and re.search(r'packet\.%s\b' % re.escape(src_), val) is not None and not others,
+                   'the limit `%s` the validators enforce is taken from the CONNACK field `%s` (found %s)' % (f_, src_, (val or '?')[:80]), 'limit-source|' + f_, loc=bn_.loc(), rule='R-C16-1')
